@@ -297,6 +297,154 @@ struct CrashResult {
     dump: Result<Dump, String>,
 }
 
+
+struct Plan {
+    class: Option<String>, // Some = member of the deterministic boundary family
+    pruning: bool,
+    prior: Vec<Commit>,
+    commit: Commit,
+    expect_panic: bool,
+}
+
+fn random_plan(i: usize, rng: &mut Rng, thorough: bool) -> Plan {
+    let pools = gen_pools(rng);
+    let pruning = !rng.chance(1, 3);
+    let nprior = if rng.chance(1, 6) { 0 } else { rng.range(1, if thorough { 6 } else { 3 }) } as usize;
+    let mut db: BTreeMap<SubKey, Vec<u8>> = BTreeMap::new();
+    let mut prior = vec![];
+    for _ in 0..nprior {
+        let mut c = gen_commit(rng, &pools, &db);
+        shrink_values(&mut c, rng);
+        apply_to_map(&mut db, &c);
+        prior.push(c);
+    }
+    let mut commit = gen_commit(rng, &pools, &db);
+    if count_ops(&commit).0 + count_ops(&commit).1 + count_ops(&commit).2 == 0 && !rng.chance(1, 6) {
+        commit = gen_commit(rng, &pools, &db);
+    }
+    shrink_values(&mut commit, rng);
+    // a small stream of commits the state tree rejects by panicking (a sort key that is a proper
+    // prefix of another one in the same partition: known finding C15 merkle-prefix-keys): a commit
+    // that dies this way must leave the pre-commit store
+    let mut expect_panic = false;
+    if i % 12 == 11 {
+        'outer: for (_, pus) in commit.iter_mut() {
+            for (_, u) in pus.iter_mut() {
+                if let PUpd::Delta(l) = u {
+                    if let Some((k, Some(_))) = l.iter().find(|(_, v)| v.is_some()).cloned() {
+                        let mut k2 = k.clone();
+                        k2.push(0);
+                        l.push((k2, Some(vec![1])));
+                        expect_panic = true;
+                        break 'outer;
+                    }
+                }
+            }
+        }
+    }
+    Plan { class: None, pruning, prior, commit, expect_panic }
+}
+
+/// The deterministic boundary family: every branch of `commit` (no metadata yet / metadata present,
+/// Delta Set / Delete, Reset with and without new values, on present / absent / single-key partitions,
+/// pruning on / off, stale single nodes / stale subtrees, tiers that disappear, store that becomes
+/// empty, empty commits) and multi-commit shapes (reset-then-delta, write-then-remove, refill of an
+/// emptied store), each with pruning enabled and disabled, every crash point swept.
+fn family() -> Vec<Plan> {
+    const E1: &[u8] = &[0x11, 0x22];
+    const E2: &[u8] = &[0x11, 0x23]; // shares three nibbles with E1
+    const E3: &[u8] = &[0x90, 0x00];
+    const A: &[u8] = &[0x10, 0x00];
+    const B: &[u8] = &[0x10, 0x01]; // shares three nibbles with A
+    const C: &[u8] = &[0x1f, 0xff];
+    const D: &[u8] = &[0xa0, 0x00];
+    const X: &[u8] = &[0x55, 0x55]; // never in the base history
+    const Y: &[u8] = &[0x66, 0x66];
+    fn set(k: &[u8], v: &[u8]) -> (Vec<u8>, Option<Vec<u8>>) {
+        (k.to_vec(), Some(v.to_vec()))
+    }
+    fn del(k: &[u8]) -> (Vec<u8>, Option<Vec<u8>>) {
+        (k.to_vec(), None)
+    }
+    fn delta(l: Vec<(Vec<u8>, Option<Vec<u8>>)>) -> PUpd {
+        PUpd::Delta(l)
+    }
+    fn reset(l: Vec<(&[u8], &[u8])>) -> PUpd {
+        PUpd::Reset(l.into_iter().map(|(k, v)| (k.to_vec(), v.to_vec())).collect())
+    }
+    fn one(e: &[u8], p: u8, u: PUpd) -> Commit {
+        vec![(e.to_vec(), vec![(p, u)])]
+    }
+    // base history: e1/p0 {a,b,c,d}, e1/p1 {a}, e2/p0 {a,d}, e3/p255 {c}
+    let h: Vec<Commit> = vec![
+        vec![
+            (E1.to_vec(), vec![(0, delta(vec![set(A, &[1]), set(B, &[2]), set(C, &[3])])), (1, delta(vec![set(A, &[9])]))]),
+            (E2.to_vec(), vec![(0, delta(vec![set(A, &[4]), set(D, &[5])]))]),
+        ],
+        vec![(E1.to_vec(), vec![(0, delta(vec![set(B, &[22]), set(D, &[7])]))]), (E3.to_vec(), vec![(255, delta(vec![set(C, &[8])]))])],
+    ];
+    let delete_everything: Commit = vec![
+        (E1.to_vec(), vec![(0, delta(vec![del(A), del(B), del(C), del(D)])), (1, delta(vec![del(A)]))]),
+        (E2.to_vec(), vec![(0, delta(vec![del(A), del(D)]))]),
+        (E3.to_vec(), vec![(255, delta(vec![del(C)]))]),
+    ];
+    let with = |extra: Commit| -> Vec<Commit> {
+        let mut v = h.clone();
+        v.push(extra);
+        v
+    };
+    let big = vec![0xabu8; 300];
+    let scenarios: Vec<(&str, Vec<Commit>, Commit, bool)> = vec![
+        ("first_commit_single_set", vec![], one(E1, 0, delta(vec![set(A, &[1])])), false),
+        ("first_commit_empty", vec![], vec![], false),
+        ("first_commit_reset_with_values", vec![], one(E1, 0, reset(vec![(A, &[1]), (B, &[2])])), false),
+        ("first_commit_delete_absent", vec![], one(E1, 0, delta(vec![del(A)])), false),
+        ("delta_set_new_key", h.clone(), one(E1, 0, delta(vec![set(X, &[1])])), false),
+        ("delta_overwrite", h.clone(), one(E1, 0, delta(vec![set(A, &[77])])), false),
+        ("delta_overwrite_same_value", h.clone(), one(E1, 0, delta(vec![set(A, &[1])])), false),
+        ("delta_delete_existing", h.clone(), one(E1, 0, delta(vec![del(A)])), false),
+        ("delta_delete_absent", h.clone(), one(E1, 0, delta(vec![del(X)])), false),
+        ("delta_mixed_ops", h.clone(), one(E1, 0, delta(vec![set(X, &[1]), set(A, &[77]), del(B), del(Y)])), false),
+        ("delta_empty_and_big_values", h.clone(), one(E1, 0, delta(vec![set(X, &[]), set(Y, &big)])), false),
+        ("delete_last_substate_of_partition", h.clone(), one(E1, 1, delta(vec![del(A)])), false),
+        ("delete_last_substate_of_entity", h.clone(), one(E3, 255, delta(vec![del(C)])), false),
+        ("delete_everything", h.clone(), delete_everything.clone(), false),
+        ("reset_nonempty_with_values", h.clone(), one(E1, 0, reset(vec![(A, &[5]), (Y, &[6])])), false),
+        ("reset_nonempty_to_empty", h.clone(), one(E1, 0, reset(vec![])), false),
+        ("reset_absent_partition_with_values", h.clone(), one(E1, 7, reset(vec![(A, &[1])])), false),
+        ("reset_absent_partition_empty", h.clone(), one(E1, 7, reset(vec![])), false),
+        ("reset_single_key_partition", h.clone(), one(E1, 1, reset(vec![(B, &[3])])), false),
+        ("reset_last_partition_255", h.clone(), one(E3, 255, reset(vec![(A, &[1]), (C, &[2])])), false),
+        ("reset_and_delta_same_node", h.clone(), vec![(E1.to_vec(), vec![(0, reset(vec![(A, &[5])])), (1, delta(vec![set(B, &[1])]))])], false),
+        (
+            "multi_node_delta_reset_delete",
+            h.clone(),
+            vec![(E1.to_vec(), vec![(0, delta(vec![set(X, &[1])]))]), (E2.to_vec(), vec![(0, reset(vec![(C, &[1])]))]), (E3.to_vec(), vec![(255, delta(vec![del(C)]))])],
+            false,
+        ),
+        ("delta_after_reset", with(one(E1, 0, reset(vec![(A, &[5]), (B, &[6])]))), one(E1, 0, delta(vec![del(A), set(C, &[1])])), false),
+        ("write_then_remove", with(one(E1, 0, delta(vec![set(X, &[1])]))), one(E1, 0, delta(vec![del(X)])), false),
+        ("refill_emptied_store", with(delete_everything.clone()), one(E2, 0, delta(vec![set(A, &[1])])), false),
+        ("empty_commit_on_nonempty_store", h.clone(), vec![], false),
+        ("empty_delta", h.clone(), one(E1, 0, delta(vec![])), false),
+        ("node_without_partitions", h.clone(), vec![(E1.to_vec(), vec![])], false),
+        ("commit_dies_in_tree_computation", h.clone(), one(E1, 0, delta(vec![set(X, &[1]), set(&[0x55, 0x55, 0x00], &[2])])), true),
+    ];
+    let mut out = vec![];
+    for (name, prior, commit, expect_panic) in scenarios {
+        for pruning in [true, false] {
+            out.push(Plan {
+                class: Some(format!("fam_{}_{}", name, if pruning { "pruning_on" } else { "pruning_off" })),
+                pruning,
+                prior: prior.clone(),
+                commit: commit.clone(),
+                expect_panic,
+            });
+        }
+    }
+    out
+}
+
 fn main() {
     let args = Args::parse();
     if args.extra.contains_key("child-dir") {
@@ -316,6 +464,14 @@ fn main() {
     report.floor("crash_points_after_first_write", (args.cases / 4) as u64);
     report.floor("obs_pre", (args.cases / 2) as u64);
     report.floor("obs_post", (args.cases / 2) as u64);
+    // produced by the deterministic family alone (independent of the seed)
+    report.floor("trace.batch:delete_range:substates", 16);
+    report.floor("trace.batch:delete:substates", 20);
+    report.floor("trace.batch:put:substates", 40);
+    report.floor("trace.batch:put:stale_merkle_tree_parts", 25);
+    report.floor("trace.direct:delete:merkle_nodes", 100);
+    report.floor("crash_points_after_first_write", 100);
+    report.floor("cases_commit_panicked_in_tree_computation", 2);
     let mut cw = CaseWriter::new("RV.Lib.Bytes RV.Model.C14_Store RV.Model.C19_CrashCommit RV.Corr.C19_run", "check");
     let root = Rng::new(args.seed);
     let tmp = args.out.join("rocks_tmp");
@@ -323,42 +479,25 @@ fn main() {
     std::fs::create_dir_all(&tmp).unwrap();
     let exe = std::env::current_exe().unwrap();
     let mut sample_trace_done = false;
+    // the deterministic boundary family (identical for every seed) comes first, then the random stream
+    let mut plans: Vec<Plan> = family();
+    let n_family = plans.len();
+    for p in &plans {
+        report.floor(p.class.as_ref().unwrap(), 1);
+    }
     for i in 0..args.cases {
         let mut rng = root.fork(i as u64);
-        let pools = gen_pools(&mut rng);
-        let pruning = !rng.chance(1, 3);
-        let nprior = if rng.chance(1, 6) { 0 } else { rng.range(1, if thorough { 6 } else { 3 }) } as usize;
+        plans.push(random_plan(i, &mut rng, thorough));
+    }
+    report.extra.insert("family_cases".into(), json!(n_family));
+    for (i, plan) in plans.into_iter().enumerate() {
+        let mut rng = root.fork(1_000_000 + i as u64);
+        let Plan { class, pruning, prior, commit, expect_panic } = plan;
+        let is_family = class.is_some();
+        let nprior = prior.len();
         let mut db: BTreeMap<SubKey, Vec<u8>> = BTreeMap::new();
-        let mut prior = vec![];
-        for _ in 0..nprior {
-            let mut c = gen_commit(&mut rng, &pools, &db);
-            shrink_values(&mut c, &mut rng);
-            apply_to_map(&mut db, &c);
-            prior.push(c);
-        }
-        let mut commit = gen_commit(&mut rng, &pools, &db);
-        if count_ops(&commit).0 + count_ops(&commit).1 + count_ops(&commit).2 == 0 && !rng.chance(1, 6) {
-            commit = gen_commit(&mut rng, &pools, &db);
-        }
-        shrink_values(&mut commit, &mut rng);
-        // a small stream of commits the state tree rejects by panicking (a sort key that is a proper
-        // prefix of another one in the same partition: known finding C15 merkle-prefix-keys): a commit
-        // that dies this way must leave the pre-commit store
-        let mut expect_panic = false;
-        if i % 12 == 11 {
-            'outer: for (_, pus) in commit.iter_mut() {
-                for (_, u) in pus.iter_mut() {
-                    if let PUpd::Delta(l) = u {
-                        if let Some((k, Some(_))) = l.iter().find(|(_, v)| v.is_some()).cloned() {
-                            let mut k2 = k.clone();
-                            k2.push(0);
-                            l.push((k2, Some(vec![1])));
-                            expect_panic = true;
-                            break 'outer;
-                        }
-                    }
-                }
-            }
+        for c in &prior {
+            apply_to_map(&mut db, c);
         }
         let mut db_post = db.clone();
         apply_to_map(&mut db_post, &commit);
@@ -405,6 +544,9 @@ fn main() {
                 } else {
                     // the commit died inside the tree computation: the store must be the pre-commit one
                     report.count("cases_commit_panicked_in_tree_computation");
+                    if let Some(c) = &class {
+                        report.count(c);
+                    }
                     let after = dump(&refd, pruning);
                     match (&pre, &after) {
                         (Ok(a), Ok(b)) => {
@@ -449,6 +591,13 @@ fn main() {
         }
         let changes = db_post != db;
         report.case(&canon, changes && !db.is_empty());
+        // a family class counts only if the scenario has the intended shape and the whole sweep was usable
+        let class_ok = match &class {
+            Some(c) if c.starts_with("fam_reset_") || c.starts_with("fam_first_commit_reset") || c.starts_with("fam_multi_node") => {
+                trace.iter().any(|t| t.0 == "batch:delete_range:substates")
+            }
+            _ => true,
+        };
 
         // the crash sweep
         let commit_file = tmp.join(format!("commit_{}.json", i));
@@ -457,6 +606,10 @@ fn main() {
         let mut ks: Vec<usize> = (0..=n).collect();
         if !thorough && ks.len() > 8 {
             let mut keep: std::collections::BTreeSet<usize> = [0, 1, 2, n - 1, n].into_iter().collect();
+            if is_family {
+                // deterministic choice for the family: also the third write, the middle, the one before last
+                keep.extend([3, n / 2, n - 2]);
+            }
             while keep.len() < 8 {
                 keep.insert(rng.usize_below(n + 1));
             }
@@ -545,6 +698,11 @@ fn main() {
                 }
             }
             obs.push(format!("({}, {})", r.k, coq_obs(d)));
+        }
+        if let Some(c) = &class {
+            if usable && class_ok {
+                report.count(c);
+            }
         }
         if !usable || args.oracle_only {
             continue;
